@@ -1,13 +1,14 @@
 import PolyVerif.Lemmas.SeqhashSpec
 import PolyVerif.Driver.C04
+import PolyVerif.Props.C12Booth
 /-
 C04 — Seqhash is invariant under rotation, strand, case and RNA/DNA spelling.
 
 All four clauses are proved for EVERY digest function `blake`, every string of every length,
 every offset, over `hashSpec` = the statement-by-statement model of `seqhash.Hash` with the
-rotation step given by the arg-min least rotation (`Spec.leastRotation`), i.e. MODULO C12
-(`hashWith_congr` below is the bridge: any rotation function that agrees with the arg-min gives
-the same hash).  Helper lemmas: Lemmas/SeqhashSpec.lean, Lemmas/RotationSpec.lean.
+rotation step given by the arg-min least rotation (`Spec.leastRotation`), and then transferred to
+`hash` (rotation step = the Booth loop of the code) through C12's `booth_least`
+(`hash_model_eq_spec`, `model_hash_*` at the end; `hashWith_congr` is the general bridge).  Helper lemmas: Lemmas/SeqhashSpec.lean, Lemmas/RotationSpec.lean.
 
 ASCII.  None of the theorems needs an ASCII hypothesis on the model side: `Char.toUpper` /
 `Char.toLower` move only `a–z` / `A–Z` (`ascii_or_fixed`; the ASCII part is decided over all
@@ -151,6 +152,32 @@ theorem hash_rna_dna (blake : List UInt8 → List UInt8) (s : Str) (c d : Bool) 
   constructor
   · congr 1
   · simp [v1, v1_prefix, tag]
+
+/-! ### the same four clauses for the model of the code itself
+
+`Seqhash.hash` is the statement-by-statement model whose rotation step is the Booth loop
+(`rotateSequence`).  C12 (`Props/C12Booth.booth_least`) proves that loop equal to the arg-min, so
+`hash = hashSpec` and the clauses above hold of `hash` with no "modulo C12" left. -/
+
+theorem hash_model_eq_spec : Seqhash.hash = Seqhash.hashSpec := Props.C12Booth.hash_eq_hashSpec
+
+theorem model_hash_rot (blake : List UInt8 → List UInt8) (s : Str) (ty : String) (ds : Bool) (k : Nat) :
+    Seqhash.hash blake (rotl k s) ty true ds = Seqhash.hash blake s ty true ds := by
+  rw [hash_model_eq_spec]; exact hash_rot blake s ty ds k
+
+theorem model_hash_strand (blake : List UInt8 → List UInt8) (s : Str) (ty : String) (c : Bool)
+    (h : Iupac15 (norm ty s)) :
+    Seqhash.hash blake (revComp s) ty c true = Seqhash.hash blake s ty c true := by
+  rw [hash_model_eq_spec]; exact hash_strand blake s ty c h
+
+theorem model_hash_case (blake : List UInt8 → List UInt8) (f : Nat → Bool) (s : Str) (ty : String) (c d : Bool) :
+    Seqhash.hash blake (recase f s) ty c d = Seqhash.hash blake s ty c d := by
+  rw [hash_model_eq_spec]; exact hash_case blake f s ty c d
+
+theorem model_hash_rna_dna (blake : List UInt8 → List UInt8) (s : Str) (c d : Bool) (h : Str)
+    (hr : Seqhash.hash blake s "RNA" c d = .ok h) :
+    Seqhash.hash blake (uToT (upper s)) "DNA" c d = .ok (h.set 3 'D') ∧ h[3]? = some 'R' := by
+  rw [hash_model_eq_spec] at *; exact hash_rna_dna blake s c d h hr
 
 /-! ### non-vacuity: concrete inputs meeting the hypotheses (tests on literals, not theorems) -/
 
